@@ -73,7 +73,12 @@ def main():
             print(results[-1]); continue
         open(full, "w").write(src.replace(old, new))
         t0 = time.time()
+        # a run against a mutated tree must not replace the committed evidence of the unchanged tree
+        ev = "/verif/evidence/%s.json" % check
+        saved = open(ev).read() if os.path.exists(ev) else None
         r = sh("cd /verif && ./check %s quick" % check, timeout=3600)
+        if saved is not None:
+            open(ev, "w").write(saved)
         dt = time.time() - t0
         sh("git -C /repo checkout -- .")
         viol = [l for l in r.stdout.splitlines() if l.startswith("VIOLATION")]
